@@ -157,6 +157,70 @@ func cfgPhases(ids []uint64, withBranch bool, static []VRef) []PhaseSpec {
 
 func onB(op OpSpec) OpSpec { op.Branch = true; return op }
 
+// writes of every kind on an open head: POST of a new and of a stored id, DELETE, replace, a
+// batch, a schema (r == nil: fixed bodies)
+func headWrites(r *lib.Rand, ids []uint64, fresh uint64) []OpSpec {
+	body := func(id uint64, fixed string) string {
+		if r == nil {
+			return fmt.Sprintf(`{"bodyid":%d,%s}`, id, fixed)
+		}
+		return genBody(r, id, false)
+	}
+	id0, id1 := ids[0], ids[len(ids)-1]
+	rep := post(id1, body(id1, `"c":[1,2]`))
+	rep.Replace = true
+	return []OpSpec{
+		post(fresh, body(fresh, `"a":1,"s":"x","zz":"w"`)), post(id0, body(id0, `"a":7,"s":"y","b":null`)),
+		del(id1), rep, post(id0, fmt.Sprintf(`{"bodyid":%d,"a":null,"f":true}`, id0)),
+		{Kind: "kvs", Items: []KV{{fresh + 1, body(fresh+1, `"b":2`)}, {id0, body(id0, `"s":"xy"`)}}},
+		del(id0), {Kind: "metapost", Meta: 1, Val: fmt.Sprintf(`{"w":%d}`, fresh)},
+	}
+}
+
+// A committed version reads the same ever after, whichever db serves it.  Phase 0 commits the
+// head(s), names them in the "inmemory" configuration and restarts: the in-memory dbs are built
+// while the configured version is still the HEAD of its branch (no child yet).  Phase 1 creates
+// the child version(s) in the same process and writes to them; phase 2 restarts (the configured
+// version now has a child at start-up); phase 3 writes again; phase 4 restarts without
+// configuration (store path).  Every phase reads the same committed versions (CaseSpec.PinRefs)
+// with the same requests: the answers must not change (Model.NJRun.phases_differ).
+// mode 0: the master head by uuid (and the root); mode 1: ":b" together with the uuids of both
+// heads; mode 2: the branch by name only.  Modes 1 and 2 need the second branch.
+func headPinPhases(r *lib.Rand, ids []uint64, mode int) []PhaseSpec {
+	rr := refReads(ids, mode > 0)
+	var p0, p1, p3 []OpSpec
+	cfg := OpSpec{Kind: "config"}
+	if mode != 2 {
+		p0 = append(p0, OpSpec{Kind: "commit"})
+		cfg.CfgStatic = append(cfg.CfgStatic, VRef{N: -1}, VRef{N: 0})
+		p1 = append(p1, OpSpec{Kind: "newversion"})
+		p1 = append(p1, headWrites(r, ids, 141)...)
+		p3 = append(p3, headWrites(r, ids, 143)...)
+	}
+	if mode > 0 {
+		p0 = append(p0, onB(OpSpec{Kind: "commit"}))
+		cfg.CfgBranch = true
+		if mode == 1 {
+			cfg.CfgStatic = append(cfg.CfgStatic, VRef{B: true, N: -1})
+		}
+		p1 = append(p1, onB(OpSpec{Kind: "newversion"}))
+		// (POST keyvalues is not among the requests the driver and the model send to the branch)
+		for _, op := range headWrites(r, ids, 145) {
+			if op.Kind != "kvs" {
+				p1 = append(p1, onB(op))
+			}
+		}
+		for _, op := range headWrites(r, ids, 147) {
+			if op.Kind != "kvs" {
+				p3 = append(p3, onB(op))
+			}
+		}
+	}
+	p0 = append(p0, cfg, OpSpec{Kind: "reload"})
+	return []PhaseSpec{{Ops: p0, Reads: rr}, {Ops: p1, Reads: rr}, {Ops: []OpSpec{{Kind: "reload"}}, Reads: rr},
+		{Ops: p3, Reads: rr}, {Ops: []OpSpec{{Kind: "config"}, {Kind: "reload"}}, Reads: rr}}
+}
+
 // ---- queries: OR lists of 1-4 alternatives, each an AND of 1-3 constraints of every kind ----
 
 // values that stored fields are likely to hold (so that constraints match some annotations)
@@ -332,6 +396,19 @@ func corpus() []CaseSpec {
 		post(10, `{"bodyid":10,"a":1}`), {Kind: "config", CfgStatic: []VRef{{N: 0}}}, {Kind: "reload"},
 		post(20, `{"bodyid":20,"a":1}`), del(10), {Kind: "commit"}, {Kind: "newversion"}},
 		Reads: stdReads([]uint64{10, 20}, 15), Phases: cfgPhases([]uint64{10, 20}, false, nil)})
+	// the configured version is the committed HEAD of its branch when the in-memory dbs are built,
+	// then gets a child that is written to in the same process (by uuid, by uuid and branch name, by
+	// branch name only)
+	for mode, name := range []string{"corpus-inmem-head-uuid", "corpus-inmem-head-uuid-branch", "corpus-inmem-head-branch-name"} {
+		ops := []OpSpec{post(10, `{"bodyid":10,"a":1,"s":"x"}`), post(20, `{"bodyid":20,"a":2,"b":[1]}`), post(30, `{"bodyid":30,"s":"y"}`),
+			{Kind: "metapost", Meta: 1, Val: `{"x":1}`}, {Kind: "commit"}, {Kind: "newversion"}, post(40, `{"bodyid":40,"a":1}`), del(20)}
+		if mode > 0 {
+			ops = append(ops, OpSpec{Kind: "branch", From: 0}, onB(post(50, `{"bodyid":50,"b":1,"s":"x"}`)), onB(del(10)),
+				onB(OpSpec{Kind: "commit"}), onB(OpSpec{Kind: "newversion"}), onB(post(60, `{"bodyid":60,"a":1}`)))
+		}
+		cs = append(cs, CaseSpec{Name: name, Ops: ops, Reads: stdReads([]uint64{10, 20, 30, 40}, 15),
+			Phases: headPinPhases(nil, []uint64{10, 30, 40, 50}, mode), PinRefs: true})
+	}
 	// datastore defect met by the branch histories: a restart loses the head of master when its
 	// committed leaf has a child on the branch only (finding C16-lost-master-head, class 11)
 	cs = append(cs, CaseSpec{Name: "corpus-lost-master-head", Ops: []OpSpec{
@@ -482,6 +559,7 @@ func genCase(r *lib.Rand, name string, thorough bool) CaseSpec {
 	// half of the histories get a second branch: created from the root once it is committed, then
 	// requests on its head interleaved with those on master
 	var phases []PhaseSpec
+	haveBranch := false
 	if r.Chance(0.5) {
 		var out []OpSpec
 		mlocked, mlen, haveB, bLocked, bLen := false, 0, false, false, 0
@@ -532,6 +610,7 @@ func genCase(r *lib.Rand, name string, thorough bool) CaseSpec {
 			}
 		}
 		ops = out
+		haveBranch = haveB
 		if haveB {
 			st := []VRef{{N: 0}}
 			if bLen > 0 {
@@ -573,5 +652,22 @@ func genCase(r *lib.Rand, name string, thorough bool) CaseSpec {
 			}
 		}
 	}
-	return CaseSpec{Name: name, Ops: ops, Reads: reads, Phases: phases}
+	// a third of the histories: the heads are committed, configured "inmemory" and get children
+	// that are written to in the same process (drawn last: the rest of the history is as before)
+	pin := false
+	if r.Chance(0.34) {
+		mode := 0
+		if haveBranch {
+			mode = 1 + r.Intn(2)
+		}
+		phases, pin = headPinPhases(r, ids, mode), true
+		for pi := range phases {
+			for _, ref := range []VRef{{N: -1}, {N: 0}} {
+				for _, q := range qs[:4] {
+					phases[pi].Reads = append(phases[pi].Reads, RefRead{Ref: ref, Read: q})
+				}
+			}
+		}
+	}
+	return CaseSpec{Name: name, Ops: ops, Reads: reads, Phases: phases, PinRefs: pin}
 }
